@@ -239,6 +239,145 @@ theorem presented_sum_within_one_unit (d : Doc) (out : Out) (t : Totals) (hrule 
                 ring_nf
                 positivity
 
+/-- **no presented total is a full minor unit off** (precise rule; n simple lines; k document discounts
+and charges given as percentages of the sum, each at most 100 %; no included tax; n·(1+k)+k < 100):
+the presented `total` differs from the exact value S·(1 − Σ discount % + Σ charge %), S = Σ price ×
+quantity, by less than one minor currency unit. -/
+theorem presented_total_within_one_unit (d : Doc) (out : Out) (t : Totals) (hrule : d.rule = .precise)
+    (hinc : d.includes = none) (hne : d.lines ≠ [])
+    (hs : ∀ l ∈ d.lines, SimpleLine l) (hd : ∀ x ∈ d.discounts, PctOnly x) (hc : ∀ x ∈ d.charges, PctOnly x)
+    (hn : d.lines.length * (1 + d.discounts.length + d.charges.length) + d.discounts.length + d.charges.length < 100)
+    (hcalc : calculate exactOps d = .ok out) (ht : out.totals = some t) :
+    |t.total.toRat - (d.lines.map lineExact).sum * (1 - (d.discounts.map pctQ).sum + (d.charges.map pctQ).sum)|
+      < 1 / ((pow10 d.c : ℤ) : ℚ) := by
+  unfold calculate at hcalc
+  cases hpre : pre exactOps d with
+  | error e => simp [hpre] at hcalc
+  | ok p =>
+    simp only [hpre] at hcalc
+    unfold pre at hpre
+    cases hl : calcLines exactOps d.cur d.c d.rates d.rule d.lines with
+    | error e => simp [hl] at hpre
+    | ok lines =>
+      simp only [hl] at hpre
+      injection hpre with hpre
+      split at hcalc
+      · injection hcalc with hcalc
+        rw [← hcalc] at ht
+        simp at ht
+      · cases htx : taxTotal exactOps d.rule d.c d.includes p.rows with
+        | error e => simp [htx] at hcalc
+        | ok tx =>
+          simp only [htx] at hcalc
+          injection hcalc with hcalc
+          rw [← hcalc] at ht
+          simp only [finish, Option.some.injEq] at ht
+          -- the figures `pre` computed
+          set sum := lineSum exactOps d.c lines with hsum
+          rw [hrule] at hl hpre
+          have hsexp : d.c + 2 ≤ sum.exp := simpleLines_sum_exp d.cur d.c d.rates d.lines lines hs hne hl
+          have hcs : d.c ≤ sum.exp := by omega
+          have hS := simpleLines_sum d.cur d.c d.rates d.lines lines hs hl
+          rw [← (sums_exact_lines d.c lines).1] at hS
+          obtain ⟨hde, hdq⟩ := adjSum_pct d.c sum d.discounts hd hcs
+          obtain ⟨hce, hcq⟩ := adjSum_pct d.c sum d.charges hc hcs
+          -- total = sum − discounts + charges, exactly
+          have htot : t.total = p.total2.rescaleX d.c := by
+            rw [← ht]; simp [roundTotals, rawTotals, taxIncluded, hinc]
+          have ht2 : p.total2.toRat = sum.toRat
+              - optQ (adjSum exactOps d.c (d.discounts.map (docAdj exactOps .precise d.c sum)))
+              + optQ (adjSum exactOps d.c (d.charges.map (docAdj exactOps .precise d.c sum))) := by
+            rw [← hpre]
+            simp only
+            cases hds : adjSum exactOps d.c (d.discounts.map (docAdj exactOps .precise d.c sum)) with
+            | none =>
+              cases hcsm : adjSum exactOps d.c (d.charges.map (docAdj exactOps .precise d.c sum)) with
+              | none => simp [optQ]
+              | some y =>
+                simp only [optQ, Option.map_none, Option.getD_none, Option.map_some, Option.getD_some]
+                rw [add_toRat _ _ (hce y hcsm)]; ring
+            | some x =>
+              have hx1 : (sub exactOps sum x).exp = sum.exp := rfl
+              cases hcsm : adjSum exactOps d.c (d.charges.map (docAdj exactOps .precise d.c sum)) with
+              | none =>
+                simp only [optQ, Option.map_none, Option.getD_none, Option.map_some, Option.getD_some]
+                rw [sub_toRat _ _ (hde x hds)]; ring
+              | some y =>
+                simp only [optQ, Option.map_some, Option.getD_some]
+                rw [add_toRat _ _ (by rw [hx1]; exact hce y hcsm), sub_toRat _ _ (hde x hds)]
+          -- assemble the bound
+          have h1 := rescaleX_err p.total2 d.c
+          have hp := p10q_pos d.c
+          have hh : halfUlp sum.exp ≤ halfUlp (d.c + 2) := halfUlp_mono _ _ hsexp
+          have hp2 : ((pow10 (d.c + 2) : ℤ) : ℚ) = ((pow10 d.c : ℤ) : ℚ) * 100 := by
+            unfold pow10; push_cast; ring
+          have hu2 : halfUlp (d.c + 2) = 1 / (200 * ((pow10 d.c : ℤ) : ℚ)) := by
+            unfold halfUlp; rw [hp2]; ring
+          have hu : halfUlp d.c = 1 / (2 * ((pow10 d.c : ℤ) : ℚ)) := rfl
+          have hpd := pctQ_sum_abs d.discounts hd
+          have hpc := pctQ_sum_abs d.charges hc
+          set S := (d.lines.map lineExact).sum
+          set P := (d.discounts.map pctQ).sum
+          set Q := (d.charges.map pctQ).sum
+          set n : ℚ := (d.lines.length : ℚ)
+          set kd : ℚ := (d.discounts.length : ℚ)
+          set kc : ℚ := (d.charges.length : ℚ)
+          set h := halfUlp (d.c + 2) with hhdef
+          have hhpos : 0 ≤ h := by rw [hu2]; positivity
+          have hkd : 0 ≤ kd := by positivity
+          have hkc : 0 ≤ kc := by positivity
+          have hn0 : 0 ≤ n := by positivity
+          -- |total2 − E| ≤ (n(1+kd+kc) + kd + kc)·h
+          have hfac : |1 - P + Q| ≤ 1 + kd + kc := by
+            have : |1 - P + Q| ≤ |(1 : ℚ)| + |P| + |Q| := by
+              have a1 := abs_add_le (1 - P) Q
+              have a2 := abs_sub (1 : ℚ) P
+              linarith
+            simp only [abs_one] at this
+            linarith
+          have hS' : |sum.toRat - S| ≤ n * h := hS
+          have hdq' : |optQ (adjSum exactOps d.c (d.discounts.map (docAdj exactOps .precise d.c sum))) - sum.toRat * P| ≤ kd * h :=
+            le_trans hdq (mul_le_mul_of_nonneg_left hh hkd)
+          have hcq' : |optQ (adjSum exactOps d.c (d.charges.map (docAdj exactOps .precise d.c sum))) - sum.toRat * Q| ≤ kc * h :=
+            le_trans hcq (mul_le_mul_of_nonneg_left hh hkc)
+          have hmid : |p.total2.toRat - S * (1 - P + Q)| ≤ (n * (1 + kd + kc) + kd + kc) * h := by
+            rw [ht2]
+            have e : sum.toRat - optQ (adjSum exactOps d.c (d.discounts.map (docAdj exactOps .precise d.c sum)))
+                + optQ (adjSum exactOps d.c (d.charges.map (docAdj exactOps .precise d.c sum))) - S * (1 - P + Q) =
+                (sum.toRat - S) * (1 - P + Q)
+                - (optQ (adjSum exactOps d.c (d.discounts.map (docAdj exactOps .precise d.c sum))) - sum.toRat * P)
+                + (optQ (adjSum exactOps d.c (d.charges.map (docAdj exactOps .precise d.c sum))) - sum.toRat * Q) := by ring
+            rw [e]
+            have b1 : |(sum.toRat - S) * (1 - P + Q)| ≤ (n * h) * (1 + kd + kc) := by
+              rw [abs_mul]
+              exact mul_le_mul hS' hfac (abs_nonneg _) (by positivity)
+            have t1 := abs_add_le ((sum.toRat - S) * (1 - P + Q)
+                - (optQ (adjSum exactOps d.c (d.discounts.map (docAdj exactOps .precise d.c sum))) - sum.toRat * P))
+                (optQ (adjSum exactOps d.c (d.charges.map (docAdj exactOps .precise d.c sum))) - sum.toRat * Q)
+            have t2 := abs_sub ((sum.toRat - S) * (1 - P + Q))
+                (optQ (adjSum exactOps d.c (d.discounts.map (docAdj exactOps .precise d.c sum))) - sum.toRat * P)
+            nlinarith
+          have hcount : n * (1 + kd + kc) + kd + kc ≤ 99 := by
+            have : (d.lines.length * (1 + d.discounts.length + d.charges.length) + d.discounts.length + d.charges.length : ℕ) ≤ 99 :=
+              Nat.le_of_lt_succ hn
+            have hq : ((d.lines.length * (1 + d.discounts.length + d.charges.length) + d.discounts.length + d.charges.length : ℕ) : ℚ) ≤ 99 := by
+              exact_mod_cast this
+            simpa [n, kd, kc] using hq
+          rw [htot]
+          calc |(p.total2.rescaleX d.c).toRat - S * (1 - P + Q)|
+              = |((p.total2.rescaleX d.c).toRat - p.total2.toRat) + (p.total2.toRat - S * (1 - P + Q))| := by ring_nf
+            _ ≤ halfUlp d.c + (n * (1 + kd + kc) + kd + kc) * h := le_trans (abs_add_le _ _) (add_le_add h1 hmid)
+            _ ≤ 1 / (2 * ((pow10 d.c : ℤ) : ℚ)) + 99 * (1 / (200 * ((pow10 d.c : ℤ) : ℚ))) := by
+                rw [hu2]
+                have hpos200 : (0 : ℚ) ≤ 1 / (200 * ((pow10 d.c : ℤ) : ℚ)) := by positivity
+                have := mul_le_mul_of_nonneg_right hcount hpos200
+                linarith
+            _ < 1 / ((pow10 d.c : ℤ) : ℚ) := by
+                rw [div_add' _ _ _ (by positivity), ← sub_pos]
+                field_simp
+                ring_nf
+                positivity
+
 /-! ## non-vacuity -/
 
 /-- a two-line document meeting every hypothesis of `presented_sum_within_one_unit`; exact sum
@@ -252,6 +391,29 @@ def twoLines : Doc :=
               { qty := ⟨12, 1⟩, item := some { price := some ⟨2222, 3⟩, cur := "", sub := 2, alts := [] },
                 discounts := [], charges := [], breakdown := [], taxes := [] }],
     discounts := [], charges := [], rates := [], rounding := none, hasPayment := false, advances := [], dues := [] }
+
+/-- the same two lines with a 10 % document discount and a 2 % charge: meets every hypothesis of
+`presented_total_within_one_unit` (n = 2, k = 2: 2·3+2 = 8 < 100); exact total 32.6814 × 0.92 =
+30.066888, presented 30.07 -/
+def twoLinesAdj : Doc :=
+  { twoLines with
+    discounts := [{ percent := some ⟨⟨10, 2⟩⟩, base := none, amount := ⟨0, 0⟩, taxes := [] }],
+    charges := [{ percent := some ⟨⟨2, 2⟩⟩, base := none, amount := ⟨0, 0⟩, taxes := [] }] }
+
+example : (∀ x ∈ twoLinesAdj.discounts, PctOnly x) ∧ (∀ x ∈ twoLinesAdj.charges, PctOnly x) ∧
+    twoLinesAdj.includes = none ∧ twoLinesAdj.lines ≠ [] ∧
+    ((calculate exactOps twoLinesAdj).toOption.bind (·.totals)).map (·.total) = some ⟨3007, 2⟩ := by
+  refine ⟨?_, ?_, rfl, by decide, by decide⟩
+  · intro x hx
+    simp only [twoLinesAdj, List.mem_singleton] at hx
+    subst hx
+    refine ⟨⟨⟨10, 2⟩⟩, rfl, rfl, rfl, ?_⟩
+    norm_num [Amount.toRat, pow10]
+  · intro x hx
+    simp only [twoLinesAdj, List.mem_singleton] at hx
+    subst hx
+    refine ⟨⟨⟨2, 2⟩⟩, rfl, rfl, rfl, ?_⟩
+    norm_num [Amount.toRat, pow10]
 
 example : twoLines.rule = .precise ∧ (∀ l ∈ twoLines.lines, SimpleLine l) ∧ twoLines.lines.length < 100 ∧
     ((calculate exactOps twoLines).toOption.bind (·.totals)).map (·.sum) = some ⟨3268, 2⟩ := by
